@@ -817,6 +817,11 @@ class CellsImpl(*_cells_impl_base):
             self.input_keys.remove(key)
 
     def clear_all_values(self, clear_input):
+        if not self.is_cached:
+            # Uncached cells hold no values, but values computed through
+            # them depend on the object node in the trace graph.
+            self.model.clear_obj(self)
+            return
         for key in list(self.data):
             self.clear_value_at(key, clear_input)
 
